@@ -551,7 +551,9 @@ func runChain(c uCase, raw string, schema *jsonapi.Schema, req uReq) uEvent {
 			return
 		}
 		ev.R.S1Parses = true
-		ev.R.Frags = reflect.DeepEqual(u1b.Fragments, u2.Fragments)
+		// ... and the text is the same when asked for again, the fragments being what they were
+		ev.R.Frags = reflect.DeepEqual(u1b.Fragments, u2.Fragments) && u1.String() == s1 &&
+			reflect.DeepEqual(u1.Fragments, u1b.Fragments)
 		ev.R.ResType = u1b.ResType == u2.ResType
 		ev.R.ResID = u1b.ResID == u2.ResID
 		ev.R.Rel = u1b.Rel == u2.Rel && u1b.RelKind == u2.RelKind
